@@ -6,7 +6,12 @@ Open Scope N_scope.
 Definition wf_block (b : block) : Prop := bh b <= u32max.
 Definition wf_call (c : call) : Prop := wf_block (call_block c).
 Definition wf_op (o : op) : Prop :=
-  match o with OCall c => wf_call c | OConc a b => wf_call a /\ wf_call b | ORelease => True end.
+  match o with
+  | OCall c => wf_call c
+  | OConc a b => wf_call a /\ wf_call b
+  | ORelease => True
+  | OPark a bs => wf_call a /\ Forall wf_call bs
+  end.
 
 Definition block_changes_of (d : db) (b : block) : changes :=
   {| c_blocks := [bh b]; c_cons := [bh b]; c_txs := btxs b;
@@ -207,4 +212,25 @@ Proof.
         split; [exact Hp|]. split; [|split; [|split]]; try assumption.
       * intro Hr. destruct (H3 Hr) as [Hp Hrest]. cbn [negb orb] in Hp.
         rewrite Bool.andb_true_r in Hp. split; [exact Hp | exact Hrest].
+Qed.
+
+(* the prepare step of the model succeeds exactly when the specification says so *)
+Lemma prepare_ok_spec : forall st c, wf_call c -> prepare_ok st c = prepare_okb (obs_of st) c.
+Proof.
+  intros st c Hwf. destruct c as [b local mroot mark wp dbc | b v ex dbc]; [reflexivity|].
+  unfold wf_call in Hwf. cbn [call_block] in Hwf. cbn [prepare_ok prepare_okb].
+  pose proof (create_block_changes_spec st b Hwf) as Hc.
+  unfold verify_and_execute.
+  destruct v; cbn [negb andb]; [|reflexivity].
+  destruct (bcons b); cbn [andb]; [reflexivity|].
+  destruct ex as [p|]; cbn [andb].
+  - destruct (create_block_changes (sdb st) b) as [e|bc].
+    + destruct Hc as [Hf _]. symmetry. exact Hf.
+    + destruct Hc as [Hn [Hf _]]. rewrite Hn, Hf. reflexivity.
+  - reflexivity.
+Qed.
+
+Lemma parks_spec : forall st c, wf_call c -> parks st c = parksb (cap st) (obs_of st) c.
+Proof.
+  intros st c Hwf. unfold parks, parksb, acquire. rewrite (prepare_ok_spec st c Hwf). reflexivity.
 Qed.
